@@ -28,6 +28,8 @@ pub struct Case {
     pub nan: bool,
 }
 
+const BIG_INTS: [i64; 10] = [1 << 30, 10, 200_000_001, 200_000_003, 200_000_005, 200_000_007, 3_000_000_000, -(1 << 30), 94_906_267, 1];
+
 pub struct C15;
 
 fn j_cmp(a: &J, b: &J) -> Option<Ordering> {
@@ -113,7 +115,7 @@ impl Property for C15 {
 
     fn rule(&self) -> String {
         "an aggregate statement over COUNT / COUNT(c) / COUNT(DISTINCT) / SUM / MIN / MAX / AVG / STDDEV / VARIANCE / PERCENTILE / BOOL_AND / BOOL_OR (MIN/MAX also over TEXT / TIMESTAMP) with 0-2 GROUP BY keys, optional \
-         WHERE and HAVING x <= 14 lines over small domains (REALs are multiples of 1/4, so sums are exact; NULL possibly first; in a fifth of the regex-flavoured cases REAL fields may be NaN, judged by the permutation oracle only) x 3 permutations of the lines x EVERY cut of the input into two parts. \
+         WHERE and HAVING x <= 14 lines over small domains (REALs are multiples of 1/4, so sums are exact; NULL possibly first; in a fifth of the regex-flavoured cases REAL fields may be NaN, judged by the permutation oracle only; in a sixth of the cases INT fields take values around 2^30, 2e8 and 3e9; a sixth of the grouped statements have LIMIT 1-3, permutation oracle only) x 3 permutations of the lines x EVERY cut of the input into two parts. \
          Oracle (metamorphic): the printed table is identical for every permutation; for every cut (statements without HAVING) the set of groups of the whole = union of the parts' groups and per group \
          COUNT/SUM add, MIN/MAX and BOOL_AND/BOOL_OR combine (absent = identity). Non-trivial: >= 2 groups and a permutation that changes the first row of some group; distinct by case."
             .to_string()
@@ -166,6 +168,19 @@ impl Property for C15 {
                 lines.push(table.line(&values, t));
             }
         }
+        if !nan && table.cols.iter().any(|c| c.1 == Ty::Int) && t.chance(1, 6) {
+            // INT values whose squares / sums leave the range in which an f64 is exact (an overflow is an error in every order)
+            lines.clear();
+            let n = 2 + t.draw(8);
+            for _ in 0..n {
+                let values: Vec<V> = table
+                    .cols
+                    .iter()
+                    .map(|(_, ty)| if t.chance(1, 6) { V::Null } else if *ty == Ty::Int { V::Int(*t.pick(&BIG_INTS)) } else { crate::props::c04::small_value(t, *ty) })
+                    .collect();
+                lines.push(table.line(&values, t));
+            }
+        }
         let mut g = AggGen { table: &table, ctx, excluded: 0 };
         let mut q = Select::simple(Vec::new(), "t");
         let nkeys = t.weighted(&[2, 5, 2]);
@@ -191,6 +206,10 @@ impl Property for C15 {
         }
         if t.chance(1, 5) {
             q.having = Some(E::bin(*t.pick(&BinOp::CMP), E::Agg("COUNT".into(), false, vec![]), E::Int(t.range(0, 3))));
+        }
+        if !q.group_by.is_empty() && t.chance(1, 6) {
+            // groups come out in key order, so LIMIT keeps a set of groups that does not depend on the input order
+            q.limit = Some(1 + t.draw(3) as u64);
         }
         let n = lines.len();
         let perms = (0..3)
@@ -269,7 +288,10 @@ impl Property for C15 {
         if case.nan {
             obs.label("nan-values");
         }
-        if case.query.having.is_none() && !case.nan {
+        if case.query.limit.is_some() {
+            obs.label("limit");
+        }
+        if case.query.having.is_none() && !case.nan && case.query.limit.is_none() {
             obs.label("cuts-checked");
             let rules: Vec<Combine> = case.query.items.iter().enumerate().map(|(i, (e, _))| combine_rule(e, i < nkeys)).collect();
             for cut in 1..case.lines.len() {
